@@ -232,7 +232,18 @@ class Unit:
             if d is None:
                 skipped["nogen"] = skipped.get("nogen", 0) + 1
                 continue
-            o = export.parse_outcome(self.interp.run(name, export.render_input(d)))
+            try:
+                o = export.parse_outcome(G.with_timeout(lambda: self.interp.run(name, export.render_input(d)), 30))
+            except G.OpTimeout:
+                # the exact-rational reference can take astronomically long (values that square in a loop): give up on
+                # this variant and start a fresh interpreter process
+                try:
+                    self.interp.p.kill()
+                except Exception:
+                    pass
+                self.interp = export.Interp()
+                self.log_result(status="reference-timeout", tags=sorted(tags), **base)
+                return
             if o[0] != "done":
                 k = "%s:%s" % (o[0], o[1])
                 skipped[k] = skipped.get(k, 0) + 1
@@ -322,7 +333,10 @@ class Unit:
         if src is None:
             g = G.C02Gen(random.Random(rng.randrange(1 << 30)), uid="c%d" % self.uid, features=self.opts.get("features"))
             src = g.module()
-        mod, err = progen.load_module(src, tag="c02")
+        try:
+            mod, err = G.with_timeout(lambda: progen.load_module(src, tag="c02"), 180)
+        except G.OpTimeout:
+            mod, err = None, "front end timeout"
         self.tick("frontend", t0)
         if mod is None:
             return {"uid": self.uid, "seed": self.seed, "status": "rejected", "detail": err, "results": [], "src": src}
@@ -382,17 +396,21 @@ def run_unit(args):
                 "results": []}
 
 
-def run_units(jobs, workers=12, deadline=None):
+def run_units(jobs, workers=12, deadline=None, grace=300):
     """jobs: list of (uid, seed, opts); returns unit results in uid order (deterministic reporting).  After the deadline
-    units that have not started are dropped (they return at once: Unit.past_deadline); running ones are awaited."""
+    units that have not started are dropped (they return at once: Unit.past_deadline); running ones are awaited for at
+    most `grace` seconds, then the workers are killed (a hung solver or interpreter must not hang the check)."""
+    from concurrent.futures import wait, FIRST_COMPLETED
     WORK.mkdir(parents=True, exist_ok=True)
     out = {}
-    with ProcessPoolExecutor(max_workers=workers) as pool:
-        futs = {}
-        for j in jobs:
-            futs[pool.submit(run_unit, j)] = j[0]
-        cancelled = False
-        for f in as_completed(futs):
+    pool = ProcessPoolExecutor(max_workers=workers)
+    futs = {pool.submit(run_unit, j): j[0] for j in jobs}
+    pending = set(futs)
+    cancelled = False
+    hard = None if deadline is None else deadline + grace
+    while pending:
+        done, pending = wait(pending, timeout=5, return_when=FIRST_COMPLETED)
+        for f in done:
             uid = futs[f]
             if f.cancelled():
                 out[uid] = {"uid": uid, "seed": None, "status": "deadline", "results": []}
@@ -401,11 +419,23 @@ def run_units(jobs, workers=12, deadline=None):
                 out[uid] = f.result()
             except Exception as e:
                 out[uid] = {"uid": uid, "seed": None, "status": "harness-error", "detail": repr(e), "results": []}
-            if deadline and time.time() > deadline and not cancelled:
-                cancelled = True
-                for g in futs:
-                    if g.cancel():
-                        out[futs[g]] = {"uid": futs[g], "seed": None, "status": "deadline", "results": []}
+        now = time.time()
+        if deadline and now > deadline and not cancelled:
+            cancelled = True
+            for g in list(pending):
+                if g.cancel():
+                    out[futs[g]] = {"uid": futs[g], "seed": None, "status": "deadline", "results": []}
+                    pending.discard(g)
+        if hard and now > hard and pending:
+            for g in pending:
+                out[futs[g]] = {"uid": futs[g], "seed": None, "status": "abandoned", "results": []}
+            for p in list(getattr(pool, "_processes", {}).values()):
+                try:
+                    p.kill()
+                except Exception:
+                    pass
+            pending = set()
+    pool.shutdown(wait=False, cancel_futures=True)
     return [out[k] for k in sorted(out)]
 
 
